@@ -196,11 +196,29 @@ static void stage_shapes(Run &R) {
             if (n >= 117 && n <= 122 || n >= 237 && n <= 242) for (const char *t : {"\n", "", "\r\n"}) { if (!go(line + t)) return; if (!go("a@example.com\n" + line + t)) return; if (!go(line + t + (*t ? "b@example.com\n" : ""))) return; }
         }
     }
+    // long well-formed lines whose multi-byte characters sit at every alignment relative to 4096 / 8192 (a tool that
+    // handles a line in pieces must not cut a character)
+    for (size_t n : {4090, 4094, 4095, 4096, 4097, 4098, 4100, 8190, 8192, 8194, 12288, 16384, 16390}) for (int pre = 0; pre < 4; pre++)
+        for (const char *ch : {"\xC3\xA9", "\xE2\x82\xAC", "\xF0\x9F\x98\x80"}) {
+            Bytes l(pre, 'a'); while (l.size() + strlen(ch) <= n) l += ch; l += "@x.com";
+            if (!go(l + ((n + pre) % 2 ? "\n" : "\r\n"))) return;
+        }
+    // big files: a CR LF pair (and a lone LF) straddling every power-of-two offset from 512 to 256 KiB (block-wise readers)
+    for (int k = 9; k <= 18; k++) for (int delta = -2; delta <= 1; delta++) for (int crlf = 0; crlf < 2; crlf++) {
+        size_t target = ((size_t) 1 << k) - 1 + delta;          // offset at which the terminator of some line starts
+        Bytes f; const Bytes line = "postmaster@example.org"; const char *term = crlf ? "\r\n" : "\n";
+        while (f.size() + line.size() + 2 + 40 < target) f += line + term;
+        size_t need = target - f.size();                          // this line's text is `need` octets long
+        if (need >= 14) { f += Bytes(need - 12, 'x') + "@example.org"; f += term; }
+        for (int i = 0; i < 3; i++) f += line + term;
+        if (k >= 16 && (delta == -2 || !crlf) && k != 16) continue;   // the largest files only in the CR LF / boundary-exact variants
+        if (!go(f)) return;
+    }
     if (!go(Bytes("a@b.com\n\nc@d.com\n"))) return; if (!go(Bytes("\n\n\n"))) return; if (!go(Bytes("a@b.com\n\0x@y.com\nz@w.com\n", 25))) return;
     { Bytes a = "a@b.com\nbad@@x\n", b = "\xD0\xB8@\xD0\xBF\xD0\xBE\xD1\x87\xD1\x82\xD0\xB0.\xD1\x80\xD1\x84\r\nlast@no.newline.com", c = "u@" + Bytes(3000, 'a') + ".com\nx@y.org\n", e = "";
       for (auto &pr : std::vector<std::pair<Bytes, Bytes>>{{a, b}, {b, a}, {c, a}, {a, c}, {e, a}, {a, e}, {c, c}}) { total++; if ((int) (idx++ % R.a.nworkers) != R.a.worker) continue; auto x = check_two_files(R, pr.first, pr.second); if (x && !R.fail(*x)) return; } }
     for (const char *fn : {"pass-email-ascii.txt", "fail-email-ascii.txt", "email-utf8.txt", "email-reg.ru.txt", "localpart-utf8.txt", "domain-length.txt", "email-result-check.txt"}) if (!go(slurp(R.a.datadir + "/" + fn))) return;
-    R.space("C20 single-line files: 20 line shapes + lengths around 1024/2048/4096/8192 in 3 fillings, x {LF, CRLF, no final newline}; lines of 100..260 and ~30 other lengths ending inside a multi-byte sequence (6 tails, first or second line); multi-line empties; the repository's data files", total);
+    R.space("C20 single-line files: 20 line shapes + lengths around 1024/2048/4096/8192 in 3 fillings, x {LF, CRLF, no final newline}; lines of 100..260 and ~30 other lengths ending inside a multi-byte sequence (6 tails, first or second line); long lines of 2/3/4-byte characters at every alignment relative to 4096/8192/16384; files with a line terminator straddling every power-of-two offset 512..256 KiB; multi-line empties; the repository's data files", total);
 }
 
 int main(int argc, char **argv) {
